@@ -82,7 +82,8 @@ def transform(d, arr, way, via, store):
         from pyPRISM.core.Space import Space
         N = len(arr); m = store.get(id(d))
         if m is None:
-            m = store[id(d)] = MatrixArray(length=N, rank=2, space=Space.Real)
+            store['lab'] = store.get('lab', 0) + 1
+            m = store[id(d)] = MatrixArray(length=N, rank=2, space=Space.Real, types=[None, [1, 2], ['B', 'A'], [1, 0]][store['lab'] % 4])          # also integer labels that are positions of the OTHER entry
             m.data = np.random.RandomState(5).normal(size=(N, 2, 2)); m.data = m.data + m.data.transpose(0, 2, 1)
             for _ in m.iterpairs(): pass
             d.MatrixArray_to_fourier(m)
